@@ -19,7 +19,12 @@ MANIFEST = dict(
          "graph) and CHECKED by Coq (C20_ranked, C20_guarded, C20_updates_single_section by computation), then the general "
          "theorems are instantiated. If no rank exists the obligation fails and the check exhibits the failure on the real code: "
          "for each lock-order cycle it starts the real requests on real threads with pause points in the mutex hook, observes the "
-         "wait-for cycle in the instrumented mutexes and reports the schedule as the replay. NOT covered: equality of replies and "
+         "wait-for cycle in the instrumented mutexes and reports the schedule as the replay. Independently of the model, an "
+         "implementation-side sweep runs two real threads on controlled schedules (request P paused right after an acquisition or "
+         "between two critical sections, request Q run against it, P resumed): first every pause point of every pair inside the "
+         "channel life-cycle family and of the requests a static check-then-act test on the channel map names, then pairs that lock "
+         "the same channel slot, then a seeded random fill (quick 4000, thorough 14000 of ~29000); every schedule must complete and "
+         "replies + final stored and in-memory channel state must equal those of P;Q or Q;P. NOT covered: equality of replies and "
          "of cross-channel node state with a sequential order (linearizability) is not proved; data-dependent lock paths that the "
          "recording corpus does not take are invisible to the recorder; atomics / memory model; try_lock (not used by the code; "
          "its appearance is an error).",
@@ -198,7 +203,7 @@ def run(res):
     #    requests the static check names), then pairs that lock the same channel slot, then a seeded random fill.
     cta = gen_locks.check_then_act(classes, progs, "M")
     focus = sorted({x["request"] for x in cta})
-    n_sweep = 1800 if quick else 12000
+    n_sweep = 4000 if quick else 14000
     nshards = min(8, max(1, lib.NCPU // 2))
     sweep = {"races": 0, "completed": 0, "blocked_then_completed": 0, "program_changed": 0, "panicked": 0,
              "unpreparable": 0, "serializable": 0, "not_serializable": 0, "sequential_unavailable": 0,
@@ -262,6 +267,31 @@ def run(res):
                            "no lock-order cycle was recorded, so a lock path is missing from the programs" if not cycles else "")},
                       has_input=True)
 
+    # non-serializable pairs that are listed (entries with a "non_serializable" list of request-name patterns)
+    import fnmatch
+
+    def listed_pair(o):
+        a, b = [x.split(":")[0].split("@")[0] for x in o["spec"]]
+        for k in known:
+            for pat in k.get("non_serializable", []):
+                if (fnmatch.fnmatch(a, pat["p"]) and fnmatch.fnmatch(b, pat["q"])) or \
+                        (fnmatch.fnmatch(b, pat["p"]) and fnmatch.fnmatch(a, pat["q"])):
+                    return k
+        return None
+    listed_odd = {}
+    unlisted = []
+    for o in odd:
+        k = listed_pair(o)
+        if k is None:
+            unlisted.append(o)
+        else:
+            listed_odd.setdefault(k["id"], []).append(" || ".join(o["spec"]))
+    for kid, specs in sorted(listed_odd.items()):
+        k = [x for x in known if x["id"] == kid][0]
+        res.known.append("%s outcome equal to no sequential order: %s (%s); %d schedule(s) of this run, e.g. harness locks race %s"
+                         % (kid, k.get("summary", ""), k.get("where", ""), len(specs), specs[0].replace(" || ", " ")))
+    sweep["not_serializable_listed"] = sum(len(v) for v in listed_odd.values())
+    odd = unlisted
     for o in odd[:3]:
         closest = min((o["vs_P_then_Q"], o["vs_Q_then_P"]), key=lambda d: len(d["differing_keys"]))
         res.violation("the outcome of two concurrent requests (%s) equals neither sequential order: replies %s, differing state %s"
@@ -318,7 +348,7 @@ def run(res):
                 "release (between two critical sections). Order: (1) all points of all pairs inside the channel life-cycle family "
                 "acting on the same channel ids (new/setup/forget channel, heartbeat pruning, funding signature, persist_all) plus "
                 "the requests the static check-then-act test names, (2) pairs that lock the same channel slot with a commitment "
-                "update among them (seeded rotation), (3) seeded random fill; quick: the first 1800 (all of tier 1), thorough: 12000; "
+                "update among them (seeded rotation), (3) seeded random fill; quick: the first 4000 (all of tiers 1 and 2), thorough: 14000; "
                 "run on 8 processes. All must complete, and replies + final "
                 "state (every stored record without versions, every channel's in-memory enforcement state; order-insensitive) "
                 "must equal those of P;Q or of Q;P run sequentially.",
